@@ -278,6 +278,17 @@ func oracleFor(op *Sexp, res string) []string {
 		if want := "ok " + normPos(td, v, false).String(); res != want {
 			bad("value written under options %s read under options %s: got %s want %s", arg(1), arg(2), res, want)
 		}
+	case "xdecm":
+		// (xdecm cfgE cfgD T V PRIOR …): the repeated-field form appends, whichever configuration reads it
+		td, e1 := parseTyDef(op.List[3])
+		v, e2 := parseVal(op.List[4])
+		prior, e3 := parseVal(op.List[5])
+		if e1 != nil || e2 != nil || e3 != nil || res == "builderr" || len(arg(1)) != 2 {
+			return nil
+		}
+		if want := "ok " + mergeTop(td, prior, v, arg(1)[1] == '1').String(); res != want {
+			bad("value written under options %s read under options %s into a populated target: got %s want %s", arg(1), arg(2), res, want)
+		}
 	case "evolve":
 		// (evolve cfg S S' V PRIOR): fields matched by index, unknown skipped, missing left alone
 		td, e1 := parseTyDef(op.List[2])
